@@ -150,17 +150,34 @@ func variants(sym []string, r repSet) []string {
 	return out
 }
 
+// compCase is a completion reply at a position that is not Required, recorded for the TLC case
+// walker JudgeLspCompletion (the reply must be the completion at SOME character boundary).
+type compCase struct {
+	Sym []string  `json:"sym"`
+	L   int       `json:"l"`
+	C   int       `json:"c"`
+	At  []atEntry `json:"at"`
+	Cls string    `json:"cls"`
+	Cmp cmpRec    `json:"cmp"`
+	// not read by the judge
+	text string
+	gt   *genText
+}
+
 type genWorker struct {
-	c       *lib.Ctx
-	dir     string
-	s       *session
-	cp      *completer
-	uriN    int
-	uri     string
-	id      int // worker number
-	phase   int // which third of the Unspecified positions gets a completion request
-	missing int // publications that never came (the worker stops after a few: each costs publishLimit)
-	stats   map[string]int
+	cases       []compCase
+	c           *lib.Ctx
+	dir         string
+	s           *session
+	cp          *completer
+	uriN        int
+	uri         string
+	id          int // worker number
+	phase       int // which third of the Unspecified positions gets a completion request
+	nPrefix     int
+	symOverride []string // symbols of the text being replayed when a word was swapped (prefix pass)
+	missing     int      // publications that never came (the worker stops after a few: each costs publishLimit)
+	stats       map[string]int
 }
 
 func (w *genWorker) ensureServer() error {
@@ -339,6 +356,86 @@ func (w *genWorker) replayText(gt genText) error {
 		}
 		c.Distinct("variant:" + v)
 	}
+	return w.prefixPass(gt, r)
+}
+
+// prefixPass: the same text with the command word swapped for a completable prefix of the same
+// length ("ech", "$pa": the tables stay valid), completion requested at EVERY grid position, so
+// that replies with candidates exist at positions the server has to normalise.
+func (w *genWorker) prefixPass(gt genText, r repSet) error {
+	c := w.c
+	hasWord := false
+	for _, s := range gt.Sym {
+		hasWord = hasWord || s == "nop"
+	}
+	if !hasWord {
+		return nil
+	}
+	// one of the two prefixes per text (which one alternates with the text and the seed)
+	w.nPrefix++
+	for _, pw := range []string{[]string{"ech", "$pa"}[(w.nPrefix+w.phase)%2]} {
+		sym := make([]string, len(gt.Sym))
+		for i, s := range gt.Sym {
+			sym[i] = s
+			if s == "nop" {
+				sym[i] = pw
+			}
+		}
+		text := concretise(sym, r)
+		if w.s == nil {
+			if err := w.ensureServer(); err != nil {
+				return err
+			}
+		}
+		errs := parseErrs("x", text)
+		w.openOrChange(text)
+		var order []int
+		want := map[int]gridPos{}
+		for _, g := range gt.Grid {
+			id := w.s.request("textDocument/completion", docPos(w.uri, g.L, g.C))
+			want[id] = g
+			order = append(order, id)
+		}
+		c.AddEvals(len(order) + 1)
+		w.symOverride = sym
+		nResp, nPub := 0, 0
+		for nResp < len(order) || nPub < 1 {
+			limit := recvLimit
+			if nResp == len(order) {
+				limit = publishLimit
+			}
+			m, st := w.s.recv(limit)
+			if st == "eof" {
+				w.symOverride = nil
+				w.crashed("handling completion", map[string]any{"text": text})
+				return nil
+			}
+			if st == "timeout" {
+				w.symOverride = nil
+				if nResp < len(order) {
+					return lib.Infra("no message from the server for %s (text %q, %d of %d responses)", recvLimit, text, nResp, len(order))
+				}
+				c.Reject("publish-missing", fmt.Sprintf("no publishDiagnostics for %q within %s after all responses", text, publishLimit), gt)
+				w.missing++
+				return nil
+			}
+			if !m.isResponse() {
+				nPub++
+				continue
+			}
+			if m.id() != order[nResp] {
+				w.symOverride = nil
+				c.Reject("response-order", fmt.Sprintf("text %q: response id %d, expected id %d", text, m.id(), order[nResp]), gt)
+				return w.resync()
+			}
+			nResp++
+			w.checkReply(gt, text, errs, "completion", want[m.id()], m)
+		}
+		w.symOverride = nil
+		w.stats["prefix-texts"]++
+		w.stats["grid-requests"] += len(order)
+		c.Distinct("prefix:" + text)
+	}
 	return nil
 }
 
@@ -353,6 +450,10 @@ func (w *genWorker) resync() error {
 
 func (w *genWorker) checkReply(gt genText, text string, errs [][2]int, kind string, g gridPos, m *wireMsg) {
 	c := w.c
+	symOf := gt.Sym
+	if w.symOverride != nil {
+		symOf = w.symOverride
+	}
 	caseKey := fmt.Sprintf("%s:%s:%d:%d", kind, strings.Join(gt.Sym, ","), g.L, g.C)
 	c.Distinct(caseKey)
 	classKey := func() string { // the class of a failing case: CR LF line starts are one known class
@@ -365,9 +466,13 @@ func (w *genWorker) checkReply(gt genText, text string, errs [][2]int, kind stri
 		// Unspecified position: any well-formed reply (result or error)
 		w.stats["unspecified-positions"]++
 		if m.Error == nil && kind == "completion" {
-			var items []lspItem
-			if json.Unmarshal(m.Result, &items) != nil {
-				c.Reject("malformed:"+kind, fmt.Sprintf("completion at (%d,%d) of %q: result %s", g.L, g.C, text, tail(string(m.Result), 200)), gt)
+			cls, cmp := projectCompletion(m.Result)
+			if cls == "items" && cmp.N == 0 && (g.L+g.C)%4 != 0 {
+				return // an empty reply says little: a quarter of them is judged
+			}
+			w.cases = append(w.cases, compCase{Sym: symOf, L: g.L, C: g.C, At: atTable(w.cp, text), Cls: cls, Cmp: cmp, text: text, gt: &gt})
+			if cmp.N > 0 {
+				w.stats["completion-unspecified-with-candidates"]++
 			}
 		}
 		return
@@ -427,7 +532,7 @@ func firstN(s []string, n int) []string {
 	return s
 }
 
-func replayGenerated(c *lib.Ctx, emptyDir string, texts []genText) error {
+func replayGenerated(c *lib.Ctx, emptyDir string, texts []genText) ([]compCase, error) {
 	par := 6
 	if len(texts) < par {
 		par = 1
@@ -435,6 +540,7 @@ func replayGenerated(c *lib.Ctx, emptyDir string, texts []genText) error {
 	var mu sync.Mutex
 	var firstErr error
 	total := map[string]int{}
+	var allCases []compCase
 	var wg sync.WaitGroup
 	for wi := 0; wi < par; wi++ {
 		wg.Add(1)
@@ -460,17 +566,51 @@ func replayGenerated(c *lib.Ctx, emptyDir string, texts []genText) error {
 			for k, v := range w.stats {
 				total[k] += v
 			}
+			allCases = append(allCases, w.cases...)
 			mu.Unlock()
 		}(wi)
 	}
 	wg.Wait()
 	if firstErr != nil {
-		return firstErr
+		return nil, firstErr
 	}
 	c.Set("G_counts", total)
 	c.Logf("G: %d texts replayed: %v", len(texts), total)
 	if len(texts) > 2 {
 		c.Sample(map[string]any{"sym": texts[len(texts)/2].Sym, "grid_positions": len(texts[len(texts)/2].Grid)})
+	}
+	return allCases, nil
+}
+
+// judgeCompletions hands the completion replies at positions that are not Required to TLC.
+func judgeCompletions(c *lib.Ctx, dir string, cases []compCase, wantCandidates bool) error {
+	withItems := 0
+	for _, cc := range cases {
+		if cc.Cmp.N > 0 {
+			withItems++
+		}
+	}
+	c.Set("completion_replies_at_normalised_positions", map[string]int{"judged": len(cases), "with_candidates": withItems})
+	if wantCandidates && c.Violations() == 0 && withItems == 0 {
+		return lib.Infra("vacuity: no completion reply with candidates at a position that is not Required")
+	}
+	bad, err := lib.Judge(c, "JudgeLspCompletion", dir, "JudgeLspCompletion", cases, 4, 10*time.Minute)
+	if err != nil {
+		return err
+	}
+	c.AddTraces(len(cases))
+	c.Logf("G: %d completion replies at normalised positions judged (%d with candidates), %d rejected", len(cases), withItems, len(bad))
+	for _, b := range bad {
+		cc := cases[b.Index]
+		why := "?"
+		if len(b.Info) > 0 {
+			why = fmt.Sprint(b.Info[0])
+		}
+		if why == "at-table-mismatch" {
+			return lib.Infra("completer table of %q does not fit its symbols %v", cc.text, cc.Sym)
+		}
+		c.Reject(fmt.Sprintf("completion-normalised:%s:%d:%d", strings.Join(cc.Sym, ","), cc.L, cc.C),
+			fmt.Sprintf("completion at (%d,%d) of %q (not a position of the document): %d candidates with edit range %v: %s", cc.L, cc.C, cc.text, cc.Cmp.N, cc.Cmp.Rg, why), cc.gt)
 	}
 	return nil
 }
